@@ -30,10 +30,28 @@ def main(d):
             return r.returncode
         elif kind == "me":
             import check_me
-            b = check_me.build(scratch)
-            out = scratch.path("out.ndjson")
-            rc, o = vlib.run_test_binary(b, "TestVerifME", {"VERIF_IN": inp, "VERIF_OUT": out})
-            verdict = check_me.validate(scratch, out, par=1)
+            sc0 = json.loads(script.split("\n")[0])
+            if any(st.get("op") == "conc" for st in sc0.get("steps", [])):
+                import conc_me, conc
+                b = conc_me.build(scratch)
+                out = conc_me.run_scripts(scratch, b, [sc0], "replay")
+                lin = scratch.path("replay-lin.ndjson")
+                n_orders = 0
+                with open(lin, "w") as fo:
+                    for sid, evs in conc.sections(out).items():
+                        for j, seq in enumerate(conc_me.linearizations(evs, None)):
+                            n_orders += 1
+                            for e in seq:
+                                fo.write(json.dumps(dict(e, sid="%s~%d" % (sid, j))) + "\n")
+                v = check_me.validate(scratch, lin, par=1)
+                bad_sids = set(b_["sid"] for b_ in v["bad"] if any(c.startswith(pid) for c in b_["ids"]))
+                verdict = dict(v, bad=[b_ for b_ in v["bad"] if any(c.startswith(pid) for c in b_["ids"])] if len(bad_sids) == n_orders else [])
+                print("concurrent section: %d orders validated, %s" % (n_orders, "unexplained" if verdict["bad"] else "explained"))
+            else:
+                b = check_me.build(scratch)
+                out = scratch.path("out.ndjson")
+                rc, o = vlib.run_test_binary(b, "TestVerifME", {"VERIF_IN": inp, "VERIF_OUT": out})
+                verdict = check_me.validate(scratch, out, par=1)
         elif kind in ("stream", "gcpme"):
             import pool
             b = pool.build_pool_harness(scratch)
